@@ -531,6 +531,8 @@ func cfgEarly() (c vsched.Config) {
 
 // schedTimerVsReply: the reply arrives just when the retry interval elapses; the
 // timer may land before, during or after the processing of the reply.
+func SchedTimerVsReply() { schedTimerVsReply() }
+
 func schedTimerVsReply() {
 	R := 10 * time.Second
 	sendDeadline = 0
@@ -548,7 +550,12 @@ func schedTimerVsReply() {
 	}
 	id := binary.BigEndian.Uint32(first[0].Data)
 	all := first
-	rc := kit.Start("Recv", func() (interface{}, error) { b, err := m.recvCall(); return string(b), err })
+	// the application is already waiting in Recv when the two meet, or calls it afterwards
+	lateRecv := kit.ChooseFree(2) == 1
+	var rc *kit.Call
+	if !lateRecv {
+		rc = kit.Start("Recv", func() (interface{}, error) { b, err := m.recvCall(); return string(b), err })
+	}
 	kit.Sleep(R - time.Nanosecond)
 	b := make([]byte, 4)
 	binary.BigEndian.PutUint32(b, id)
@@ -556,6 +563,10 @@ func schedTimerVsReply() {
 	kit.Quiesce()
 	kit.Sleep(time.Nanosecond)
 	kit.Quiesce()
+	if lateRecv {
+		rc = kit.Start("Recv", func() (interface{}, error) { b, err := m.recvCall(); return string(b), err })
+		kit.Quiesce()
+	}
 	if !rc.Done() || rc.Err != nil || rc.Val.(string) != "the-reply" {
 		kit.Failf("sched-recv", "Recv: done=%v %s %q", rc.Done(), kit.ErrName(rc.Err), rc.Val)
 	}
@@ -573,7 +584,7 @@ func schedTimerVsReply() {
 	if extra := w.newWire(); len(extra) != 0 {
 		kit.Failf("tx-after-answered", "request re-sent at %v after its reply had been delivered to the application", extra[0].At)
 	}
-	kit.Observe("tx=%d", len(all))
+	kit.Observe("late=%v tx=%d", lateRecv, len(all))
 }
 
 // ---------------------------------------------------------------------------
